@@ -7,6 +7,7 @@ package sctx
 
 import (
 	"context"
+	"sync"
 	"time"
 
 	"github.com/glebziz/fs_db/internal/verif/simrt"
@@ -35,6 +36,10 @@ type simKey struct{}
 // simCtx is a cancellable context the simulator knows about.
 type simCtx struct {
 	context.Context
+	// mu is a REAL mutex (never a decision point, never held across one): package context
+	// orders AfterFunc registration, child registration and cancellation through the parent's
+	// mutex, and the race detector must see the same happens-before edges here.
+	mu     sync.Mutex
 	afters []*afterReg
 	done   bool
 	kids   []*simCtx
@@ -59,22 +64,42 @@ func nearest(c Context) *simCtx {
 }
 
 func (c *simCtx) fire() {
+	c.mu.Lock()
 	if c.done {
+		c.mu.Unlock()
 		return
 	}
 	c.done = true
-	simrt.MarkClosed(c.Context.Done())
+	var run []func()
 	for _, a := range c.afters {
 		if !a.stopped && !a.fired {
 			a.fired = true
-			simrt.Go(a.f)
+			run = append(run, a.f)
 		}
 	}
 	c.afters = nil
-	for _, k := range c.kids {
+	kids := c.kids
+	c.kids = nil
+	c.mu.Unlock()
+	simrt.MarkClosed(c.Context.Done())
+	for _, f := range run {
+		simrt.Go(f)
+	}
+	for _, k := range kids {
 		k.fire()
 	}
-	c.kids = nil
+}
+
+// adopt registers child with parent (or fires it at once if the parent is already done).
+func (c *simCtx) adopt(child *simCtx) {
+	c.mu.Lock()
+	if c.done {
+		c.mu.Unlock()
+		child.fire()
+		return
+	}
+	c.kids = append(c.kids, child)
+	c.mu.Unlock()
 }
 
 func WithCancel(parent Context) (Context, CancelFunc) {
@@ -84,12 +109,7 @@ func WithCancel(parent Context) (Context, CancelFunc) {
 	}
 	sc := &simCtx{Context: ctx}
 	if p := nearest(parent); p != nil && p.Context.Done() != nil {
-		if p.done {
-			sc.done = true
-			simrt.MarkClosed(ctx.Done())
-		} else {
-			p.kids = append(p.kids, sc)
-		}
+		p.adopt(sc)
 	}
 	return sc, func() {
 		simrt.Yield("ctx.cancel")
@@ -105,12 +125,7 @@ func WithCancelCause(parent Context) (Context, CancelCauseFunc) {
 	}
 	sc := &simCtx{Context: ctx}
 	if p := nearest(parent); p != nil {
-		if p.done {
-			sc.done = true
-			simrt.MarkClosed(ctx.Done())
-		} else {
-			p.kids = append(p.kids, sc)
-		}
+		p.adopt(sc)
 	}
 	return sc, func(cause error) {
 		simrt.Yield("ctx.cancel")
@@ -153,13 +168,18 @@ func AfterFunc(ctx Context, f func()) (stop func() bool) {
 		return context.AfterFunc(ctx, func() { simrt.Probe("sctx.foreign-afterfunc"); f() })
 	}
 	a := &afterReg{f: f}
+	sc.mu.Lock()
 	if sc.done {
 		a.fired = true
+		sc.mu.Unlock()
 		simrt.Go(f)
 		return func() bool { return false }
 	}
 	sc.afters = append(sc.afters, a)
+	sc.mu.Unlock()
 	return func() bool {
+		sc.mu.Lock()
+		defer sc.mu.Unlock()
 		if a.fired || a.stopped {
 			return false
 		}
